@@ -35,7 +35,10 @@ where
     E: Engine<U>,
 {
     fn solve(&self, _solver: &Solver<U, E>, state: State<U, E>) -> Stream<U, E> {
-        match LessThanOrEqualFdConstraint::new(self.u.clone(), self.v.clone()).run(state) {
+        match LessThanOrEqualFdConstraint::new(self.u.clone(), self.v.clone())
+            .run(state)
+            .and_then(State::run_constraints)
+        {
             Ok(state) => Stream::unit(Box::new(state)),
             Err(_) => Stream::empty(),
         }
